@@ -66,6 +66,7 @@ type vSchedRun struct {
 	fixOn   bool
 	staleTO time.Duration
 	skipped int
+	kfclass bool
 	applied int
 	base    int
 }
@@ -168,6 +169,14 @@ func (r *vSchedRun) fixEnded() {
 	r.fixOn = false
 	r.phase = "run"
 	r.s.mu.Lock()
+	if !r.s.frozen && r.staleTO < time.Hour { // only where StaleLockTimeout can expire at all
+		for x := 1; x <= r.s.nw; x++ {
+			if r.s.wk[x].st == "unknown" {
+				// fixStaleLocks returned while a worker was still unknown: the known class
+				r.kfclass = true
+			}
+		}
+	}
 	r.s.direct = false
 	r.s.mu.Unlock()
 }
@@ -635,7 +644,7 @@ func TestVerifC14Sched(t *testing.T) {
 			init = append(init, st)
 		}
 		tw.Write(map[string]interface{}{"ev": "reset", "scn": scn.ID, "nc": scn.NC, "nw": scn.NW, "init": init,
-			"mode": "exact", "applied": r.applied, "skipped": r.skipped})
+			"mode": "exact", "applied": r.applied, "skipped": r.skipped, "kfclass": r.kfclass})
 		r.s.mu.Lock()
 		for _, ev := range r.s.events[:nev] {
 			tw.Write(ev)
